@@ -223,9 +223,13 @@ def loop_of(fn, block):
             continue
         # the switch on its Option result
         sws, _ = result_switches(fn, t[3][0])
-        for sb, kind, arms, oth in sws:
-            some = arms.get(1)
-            if some is not None and cfg.dominates(fn, some, block) and b in cfg.reachable(fn, some):
-                if best is None or cfg.dominates(fn, best[1], some):
-                    best = (b, some)
+        cands = [(sb, arms.get(1)) for sb, kind, arms, oth in sws if arms.get(1) is not None]
+        if not cands:
+            continue
+        # the switch on the iterator's own Option is the one that dominates the others
+        first = [c for c in cands if all(cfg.dominates(fn, c[0], o[0]) for o in cands)]
+        sb, some = (first or cands)[0]
+        if cfg.dominates(fn, some, block) and b in cfg.reachable(fn, some):
+            if best is None or cfg.dominates(fn, best[1], some):
+                best = (b, some)
     return best
